@@ -71,11 +71,13 @@ func multi(r *ev.Run) {
 				if c == nil {
 					continue
 				}
-				rec := map[string]any{"agent_keys": nk, "requests_per_key": nc, "certificates_per_request": ncert}
+				lenient := (nk+nc+ncert)%2 == 0
+				rec := map[string]any{"agent_keys": nk, "requests_per_key": nc, "certificates_per_request": ncert, "agent_cross_checks_certificate_and_key": !lenient}
 				r.Eval(1)
 				r.Guard(c, "multi-request run", rec, func() {
 					ag := wire.New()
 					defer ag.Close()
+					ag.SetLenient(lenient) // half the agents store whatever they are handed, like OpenSSH's
 					conn, err := ag.Pair()
 					if err != nil {
 						r.Inconclusive(err.Error())
@@ -85,6 +87,11 @@ func multi(r *ev.Run) {
 					foreignKey := gen.Pool()[3]
 					ag.Keyring.Add(agent.AddedKey{PrivateKey: foreignKey.Priv, Comment: "multi-cer"}) // near-miss comment
 					h := &multiHandler{ag: agent.NewClient(conn), nKeys: nk, nCSRs: nc}
+					if lenient {
+						// an agent.Agent that is not x/crypto's client (which refuses a mismatched pair before sending it):
+						// the recording keyring itself, in process
+						h.ag = ag.Rec
+					}
 					var prev map[string]bool
 					for run := 0; run < 3; run++ {
 						signer := &gsrig.Signer{Agent: ag, NCerts: ncert}
@@ -147,8 +154,16 @@ func multi(r *ev.Run) {
 						prev = now
 					}
 					r.Count("multi-request histories (3 successful runs) judged", 1)
+					r.Count(fmt.Sprintf("multi-request histories judged with %d agent keys", nk), 1)
 					r.Nontrivial(fmt.Sprintf("multi:%d:%d:%d", nk, nc, ncert))
 				})
+			}
+		}
+	}
+	if r.Replay == nil && r.Want("multi") {
+		for nk := 1; nk <= 2; nk++ {
+			if r.Counter(fmt.Sprintf("multi-request histories judged with %d agent keys", nk)) == 0 {
+				r.Inconclusive(fmt.Sprintf("no history of a handler with %d agent keys ran to a successful end: nothing was observed about them", nk))
 			}
 		}
 	}
